@@ -111,6 +111,7 @@ specs["C06"] = {"runs": [
     run(CMD + "summary:Harness_summary_day", QT, {}, cover=["ran"], note="concrete supplement: the summary command's real Action (real time.Date/Year/Month/Day) for 6 dates around month/year ends x {today, yesterday, explicit} x time.Local in {UTC, -5h, +13h, -10h}: exactly the headings of that calendar date"),
     run("cmd/hranoprovod-cli:Harness_app_period", Q, {"R": 2}, cover=["ran"], note="whole application: 10 period-aware command variants x period given globally / on the sub-command / on both (sub-command wins) x {begin, end} present or not x symbolic dates: output = output on the log with the other days deleted and no period"),
     run("cmd/hranoprovod-cli:Harness_app_period", T, {"R": 3}, cover=["ran"]),
+    run("cmd/hranoprovod-cli:Harness_app_keywords", QT, {}, cover=["ran"], note="whole application: --begin/--end = today, yesterday, last7, last30 (globally or on the sub-command) against --today minus 0/1/7/30 days, symbolic dates"),
     run(CMD + "options:Harness_today_and_period", QT, {}, cover=["loaded"], note="real urfave/cli Context and flag.FlagSet code: sub-command period overrides the global one; keywords resolve against --today"),
  ], "assumptions": ["dates within a 40-day window for the walk (any order, repeats allowed)"],
  "outside_claim": ["time-zone independence beyond the summary supplement", "internals of time.Parse/AddDate/Date"],
